@@ -72,7 +72,7 @@ Definition BS_DOM_COLUMN : N := 92.      (* to_dom: column shorter than its clas
    (also keeps the unary numbers of the extracted code small on hostile input) *)
 Definition p_count : parser nat := fun b =>
   match read_le 4 b with
-  | Ok (k, b') => if N.ltb (N.of_nat (length b')) k then Err BS_EOF else Ok (N.to_nat k, b')
+  | Ok (k, b') => if shorter_than b' k then Err BS_EOF else Ok (N.to_nat k, b')
   | Panic => Panic | Err c => Err c | OutOfFuel => OutOfFuel
   end.
 Definition e_u32 (n : N) : bytes := le_bytes 4 n.
@@ -340,7 +340,7 @@ Fixpoint content_zip (tys : list N) (uris : list bytes) (objs : list Z) : option
 (* a count of referents: 4 bytes each *)
 Definition p_count4 : parser nat := fun b =>
   match read_le 4 b with
-  | Ok (k, b') => if N.ltb (N.of_nat (length b')) (4 * k) then Err BS_EOF else Ok (N.to_nat k, b')
+  | Ok (k, b') => if shorter_than b' (4 * k) then Err BS_EOF else Ok (N.to_nat k, b')
   | Panic => Panic | Err c => Err c | OutOfFuel => OutOfFuel
   end.
 Definition p_ctypes (rd : bs_reading) (n : nat) : parser (list N) :=
@@ -547,7 +547,11 @@ Definition p_prop (rd : bs_reading) (seen : list (N * nat)) : parser bs_item :=
       match rest with
       | [] => Ok (IProp (mkProp id name BTruncated), [])
       | ty :: vals =>
-        if bs_known_type ty then (c <~ bs_dec_col rd ty n ;; p_end (IProp (mkProp id name (BValues c)))) vals
+        if bs_known_type ty then
+          (c <~ bs_dec_col rd ty n ;;
+           (* "whose length is equal to the number of instances belonging to Class ID": every column decoder reads exactly n
+              values; the check makes the clause hold by construction (BinSpecFacts.decode_chunks_prop_lengths) *)
+           if Nat.eqb (bs_col_len c) n then p_end (IProp (mkProp id name (BValues c))) else pfail BS_DOM_COLUMN) vals
         else Ok (IProp (mkProp id name (BUnknown ty vals)), [])
       end
     end.
@@ -695,7 +699,7 @@ Definition p_header : parser (Z * Z) :=
    nonzero ... This compressed body is Compressed Length bytes long and will expand to Uncompressed Length bytes when decompressed." *)
 Record bs_raw := mkRaw { rw_name : bytes; rw_clen : N; rw_ulen : N; rw_data : bytes }.
 Definition read_exact_N (n : N) : parser bytes := fun b =>
-  if N.ltb (N.of_nat (length b)) n then Err BS_EOF else read_exact (N.to_nat n) b.
+  if shorter_than b n then Err BS_EOF else read_exact (N.to_nat n) b.
 Definition p_raw : parser bs_raw :=
   name <~ read_exact 4 ;; cl <~ read_le 4 ;; ul <~ read_le 4 ;; rs <~ read_le 4 ;;
   if negb (N.eqb rs 0) then pfail BS_CHUNK_HEADER else
